@@ -27,6 +27,32 @@ Definition msg_step (amap : list (string * attr_def)) (cid : Z) (l : list attr_a
   | _ => l
   end.
 
+(* the four dedicated fields of a message: cycle, delay and start-delay time, send type *)
+Definition mfields (m : message) : Z * Z * Z * Z := (m_cycle m, m_delay m, m_startdelay m, m_sendtype m).
+Definition fld_step (amap : list (string * attr_def)) (cid : Z) (f : Z * Z * Z * Z) (av : dattrval) : Z * Z * Z * Z :=
+  match av_kind av with
+  | OMessage =>
+      if cid =? av_msg av then
+        match lookup String.eqb (av_name av) amap with
+        | Some ad =>
+            match attr_value ad av with
+            | Ok v =>
+                let '(c, dl, sd, st) := f in
+                match special_of (av_name av), v with
+                | Some SpMsgCycle, ValInt z => (z, dl, sd, st)
+                | Some SpMsgDelay, ValInt z => (c, z, sd, st)
+                | Some SpMsgStartDelay, ValInt z => (c, dl, z, st)
+                | Some SpMsgSend, ValString t => (c, dl, sd, msg_send_type_from_dbc t)
+                | _, _ => f
+                end
+            | Err _ => f
+            end
+        | None => f
+        end
+      else f
+  | _ => f
+  end.
+
 Lemma Forall2_same : forall {A} (R : A -> A -> Prop) l, (forall x, In x l -> R x x) -> Forall2 R l l.
 Proof. intros A R l. induction l as [|x r IH]; intros H; constructor; [apply H; left; reflexivity|apply IH; intros y Hy; apply H; right; assumption]. Qed.
 
@@ -73,7 +99,8 @@ Section Exact.
   Variable amap : list (string * attr_def).
 
   Definition NR (av : dattrval) (n0 n1 : node) : Prop := n_name n1 = n_name n0 /\ n_attrs n1 = node_step amap (n_name n0) (n_attrs n0) av.
-  Definition MR (av : dattrval) (m0 m1 : message) : Prop := m_canid m1 = m_canid m0 /\ m_attrs m1 = msg_step amap (m_canid m0) (m_attrs m0) av.
+  Definition MR (av : dattrval) (m0 m1 : message) : Prop :=
+    m_canid m1 = m_canid m0 /\ m_attrs m1 = msg_step amap (m_canid m0) (m_attrs m0) av /\ mfields m1 = fld_step amap (m_canid m0) (mfields m0) av.
 
   Lemma node_step_other : forall nm l av, av_kind av <> ONode -> node_step amap nm l av = l.
   Proof. intros nm l av H. unfold node_step. destruct (av_kind av); try reflexivity. exfalso. apply H. reflexivity. Qed.
@@ -86,6 +113,11 @@ Section Exact.
   Lemma msg_step_none : forall c l av, lookup String.eqb (av_name av) amap = None -> msg_step amap c l av = l.
   Proof. intros c l av H. unfold msg_step. rewrite (val_step_none l av H). destruct (av_kind av); try reflexivity. destruct (c =? av_msg av), (special_of (av_name av)); reflexivity. Qed.
 
+  Lemma fld_step_other : forall c f av, av_kind av <> OMessage -> fld_step amap c f av = f.
+  Proof. intros c f av H. unfold fld_step. destruct (av_kind av); try reflexivity. exfalso. apply H. reflexivity. Qed.
+  Lemma fld_step_none : forall c f av, lookup String.eqb (av_name av) amap = None -> fld_step amap c f av = f.
+  Proof. intros c f av H. unfold fld_step. rewrite H. destruct (av_kind av); try reflexivity. destruct (c =? av_msg av); reflexivity. Qed.
+
   Lemma astep_exact : forall sm b0 av b1,
     NoDup (map n_name (b_nodes b0)) -> NoDup (map m_canid (b_messages b0)) ->
     astep amap sm (Ok b0) av = Ok b1 ->
@@ -94,12 +126,14 @@ Section Exact.
     intros sm b0 av b1 Hnn Hnc H. unfold astep in H. cbn [bind] in H.
     assert (Hsame : forall P : Prop, P -> P) by auto.
     destruct (lookup String.eqb (av_name av) amap) as [ad|] eqn:El.
-    2:{ inversion H; subst. split; apply Forall2_same; intros x _; split; try reflexivity; [rewrite node_step_none|rewrite msg_step_none]; auto. }
+    2:{ inversion H; subst. split; apply Forall2_same; intros x _.
+        - split; [reflexivity|rewrite node_step_none; auto].
+        - split; [reflexivity|]. rewrite msg_step_none, fld_step_none by assumption. split; reflexivity. }
     destruct (attr_value ad av) as [v|w] eqn:Ev; cbn [bind] in H; [|discriminate].
     assert (HN0 : av_kind av <> ONode -> Forall2 (NR av) (b_nodes b0) (b_nodes b0))
       by (intros Hk; apply Forall2_same; intros x _; split; [reflexivity|rewrite node_step_other; auto]).
     assert (HM0 : av_kind av <> OMessage -> Forall2 (MR av) (b_messages b0) (b_messages b0))
-      by (intros Hk; apply Forall2_same; intros x _; split; [reflexivity|rewrite msg_step_other; auto]).
+      by (intros Hk; apply Forall2_same; intros x _; split; [reflexivity|rewrite msg_step_other, fld_step_other by assumption; split; reflexivity]).
     destruct (av_kind av) eqn:Ek.
     - apply bind_ok in H. destruct H as [a [_ H]]. inversion H; subst. cbn [b_nodes b_messages set_b_attrs]. split; [apply HN0|apply HM0]; discriminate.
     - split.
@@ -120,14 +154,14 @@ Section Exact.
         rewrite H0. apply HN0. discriminate. }
       apply bind_ok in H. destruct H as [ms [Hu H]]. inversion H; subst. cbn [b_messages set_b_messages].
       pose proof (update_first_key m_canid (av_msg av) _ _ _ _ (fun x => Z.eqb_eq (m_canid x) (av_msg av)) Hnc Hu) as HF.
-      eapply Forall2_impl'; [|exact HF]. intros x y Hxy. cbn beta in Hxy. unfold MR, msg_step. rewrite Ek.
+      eapply Forall2_impl'; [|exact HF]. intros x y Hxy. cbn beta in Hxy. unfold MR, msg_step, fld_step. rewrite Ek.
       destruct (m_canid x =? av_msg av) eqn:Ex.
-      + unfold assign_message in Hxy. destruct (special_of (av_name av)) as [[]|].
-        1-4: destruct v; try discriminate; inversion Hxy; subst; split; reflexivity.
-        1-2: inversion Hxy; subst; split; reflexivity.
-        apply bind_ok in Hxy. destruct Hxy as [a' [Ht Hy]]. inversion Hy; subst y. cbn [m_canid m_attrs set_m_attrs]. split; [reflexivity|].
+      + rewrite El, Ev. unfold assign_message in Hxy. unfold mfields. destruct (special_of (av_name av)) as [[]|].
+        1-4: destruct v; try discriminate; inversion Hxy; subst; cbn [m_canid m_attrs m_cycle m_delay m_startdelay m_sendtype set_m_times]; repeat split.
+        1-2: inversion Hxy; subst; destruct v; repeat split.
+        apply bind_ok in Hxy. destruct Hxy as [a' [Ht Hy]]. inversion Hy; subst y. cbn [m_canid m_attrs set_m_attrs m_cycle m_delay m_startdelay m_sendtype]. split; [reflexivity|]. split; [|destruct v; reflexivity].
         unfold val_step. rewrite El, Ev. unfold try_assign in Ht. destruct (check_value ad v); [inversion Ht; reflexivity|discriminate].
-      + subst y. split; reflexivity.
+      + subst y. repeat split.
     - split.
       { assert (b_nodes b1 = b_nodes b0).
         { destruct (lookup key_eqb _ sm) as [[mpos sid]|]; [|inversion H; reflexivity]. apply bind_ok in H. destruct H as [ms [_ H]]. inversion H; reflexivity. }
@@ -135,8 +169,9 @@ Section Exact.
       destruct (lookup key_eqb _ sm) as [[mpos sid]|]; [|inversion H; subst; apply HM0; discriminate].
       apply bind_ok in H. destruct H as [ms [Hu H]]. inversion H; subst. cbn [b_messages set_b_messages].
       eapply update_nth_F2; [exact Hu| |].
-      + intros x y Hf. apply bind_ok in Hf. destruct Hf as [ss [_ Hf]]. inversion Hf; subst y. split; [reflexivity|]. cbn [m_attrs set_m_signals]. rewrite msg_step_other by (rewrite Ek; discriminate). reflexivity.
-      + intros x. split; [reflexivity|]. rewrite msg_step_other by (rewrite Ek; discriminate). reflexivity.
+      + intros x y Hf. apply bind_ok in Hf. destruct Hf as [ss [_ Hf]]. inversion Hf; subst y. split; [reflexivity|]. unfold mfields. cbn [m_attrs set_m_signals m_cycle m_delay m_startdelay m_sendtype m_canid].
+        rewrite msg_step_other, fld_step_other by (rewrite Ek; discriminate). split; reflexivity.
+      + intros x. split; [reflexivity|]. rewrite msg_step_other, fld_step_other by (rewrite Ek; discriminate). split; reflexivity.
     - inversion H; subst. split; [apply HN0|apply HM0]; discriminate.
   Qed.
 
@@ -144,10 +179,11 @@ Section Exact.
     NoDup (map n_name (b_nodes b0)) -> NoDup (map m_canid (b_messages b0)) ->
     fold_left (astep amap sm) avs (Ok b0) = Ok b1 ->
     Forall2 (fun n0 n1 => n_name n1 = n_name n0 /\ n_attrs n1 = fold_left (node_step amap (n_name n0)) avs (n_attrs n0)) (b_nodes b0) (b_nodes b1) /\
-    Forall2 (fun m0 m1 => m_canid m1 = m_canid m0 /\ m_attrs m1 = fold_left (msg_step amap (m_canid m0)) avs (m_attrs m0)) (b_messages b0) (b_messages b1).
+    Forall2 (fun m0 m1 => m_canid m1 = m_canid m0 /\ m_attrs m1 = fold_left (msg_step amap (m_canid m0)) avs (m_attrs m0) /\
+                          mfields m1 = fold_left (fld_step amap (m_canid m0)) avs (mfields m0)) (b_messages b0) (b_messages b1).
   Proof.
     intros sm avs. induction avs as [|av r IH]; intros b0 b1 Hnn Hnc H; cbn [fold_left] in H.
-    - inversion H; subst. split; apply Forall2_same; intros x _; split; reflexivity.
+    - inversion H; subst. split; apply Forall2_same; intros x _; repeat split.
     - destruct (astep amap sm (Ok b0) av) as [b0'|w] eqn:E.
       2:{ rewrite fold_result_err in H; [discriminate|intros x w'; reflexivity]. }
       destruct (astep_exact _ _ _ _ Hnn Hnc E) as [A1 A2].
@@ -155,14 +191,15 @@ Section Exact.
       assert (Hc1 : map m_canid (b_messages b0') = map m_canid (b_messages b0)) by (eapply Forall2_names; [exact A2|intros x y [K _]; exact K]).
       destruct (IH b0' b1 ltac:(rewrite Hn1; assumption) ltac:(rewrite Hc1; assumption) H) as [I1 I2]. cbn [fold_left]. split.
       + eapply Forall2_comp; [exact A1|exact I1|]. intros x y z [N1 N2] [K1 K2]. split; [congruence|]. rewrite K2, N1, N2. reflexivity.
-      + eapply Forall2_comp; [exact A2|exact I2|]. intros x y z [N1 N2] [K1 K2]. split; [congruence|]. rewrite K2, N1, N2. reflexivity.
+      + eapply Forall2_comp; [exact A2|exact I2|]. intros x y z [N1 [N2 N3]] [K1 [K2 K3]]. split; [congruence|]. rewrite K2, K3, N1, N2, N3. split; reflexivity.
   Qed.
 End Exact.
 
 Theorem import_node_message_attributes_exact : forall d b, import d = Ok b ->
   exists amap, def_map d = Ok amap /\
     Forall (fun n => n_attrs n = fold_left (node_step amap (n_name n)) (d_attrvals d) []) (b_nodes b) /\
-    Forall (fun m => m_attrs m = fold_left (msg_step amap (m_canid m)) (d_attrvals d) []) (b_messages b).
+    Forall (fun m => m_attrs m = fold_left (msg_step amap (m_canid m)) (d_attrvals d) [] /\
+                     mfields m = fold_left (fld_step amap (m_canid m)) (d_attrvals d) (0, 0, 0, 0)) (b_messages b).
 Proof.
   intros d b H. apply import_inv in H.
   destruct H as [reg [es [se [nodes [st4 [msgs [b1 [_ [_ [Hn [Hm [Hb Hbb]]]]]]]]]]]].
@@ -181,8 +218,12 @@ Proof.
   destruct (astep_fold_exact amap (is_sigmap st4) (d_attrvals d) (mkbus (d_filename d) (fst (import_comments (d_comments d))) [] nodes (is_enums st4) msgs) b1 Hnd Hc Hf) as [F1 F2]. cbn [b_nodes b_messages] in F1, F2.
   assert (G1 : Forall (fun n => n_attrs n = fold_left (node_step amap (n_name n)) (d_attrvals d) []) (b_nodes b1)).
   { eapply Forall2_right_all; [exact F1|exact Hna|]. cbn beta. intros x y Hx [N1 N2]. rewrite N2, N1, Hx. reflexivity. }
-  assert (G2 : Forall (fun m => m_attrs m = fold_left (msg_step amap (m_canid m)) (d_attrvals d) []) (b_messages b1)).
-  { eapply Forall2_right_all; [exact F2|exact Hma|]. cbn beta. intros x y Hx [N1 N2]. rewrite N2, N1, Hx. reflexivity. }
+  pose proof (import_messages_zero_fields _ _ _ _ _ _ _ Hm (Forall_nil _)) as Hmz.
+  assert (Hmaz : Forall (fun m => m_attrs m = [] /\ mfields m = (0, 0, 0, 0)) msgs).
+  { rewrite Forall_forall in *. intros m Hin. split; [apply Hma; assumption|]. destruct (Hmz m Hin) as [Z1 [Z2 [Z3 Z4]]]. unfold mfields. rewrite Z1, Z2, Z3, Z4. reflexivity. }
+  assert (G2 : Forall (fun m => m_attrs m = fold_left (msg_step amap (m_canid m)) (d_attrvals d) [] /\
+                                mfields m = fold_left (fld_step amap (m_canid m)) (d_attrvals d) (0, 0, 0, 0)) (b_messages b1)).
+  { eapply Forall2_right_all; [exact F2|exact Hmaz|]. cbn beta. intros x y [Hx Hz] [N1 [N2 N3]]. rewrite N2, N3, N1, Hx, Hz. split; reflexivity. }
   subst b. destruct (existsb _ _); [split; assumption|].
   cbn [b_nodes b_messages set_b_nodes]. split; [|assumption].
   apply Forall_forall. intros n Hn'. apply filter_In in Hn'. destruct Hn' as [Hn' _]. rewrite Forall_forall in G1. apply G1. assumption.
